@@ -1,5 +1,7 @@
 import SfVerif.Spec.TypedDoc
 import SfVerif.Lemmas.F64Exact
+import SfVerif.Lemmas.DeDoc4
+import SfVerif.Props.C02
 /-! C09 — typed serialisation and deserialisation are inverse to each other (document level:
     `TVal.doc` is the tree the accepted writes of `Serialize` build, `deDoc` is `Deserialize` read
     off a decoded tree; the byte-level links are C02 and C01). -/
@@ -164,6 +166,47 @@ theorem C09_wrong_length_rejected (xs : List Doc) (n : Nat) (t : Ty) (ts : List 
     (xs.length ≠ n → deDoc (.arrN n t) (.arr xs) = none) ∧
     (xs.length ≠ ts.length → deDoc (.tup ts) (.arr xs) = none) := by
   constructor <;> intro h <;> simp [deDoc, h]
+
+/-! ### through the bytes: writer, lazy reader and typed layer composed -/
+
+/-- **reading a document through the provider calls = reading the decoded tree**, for every type
+    of the read-side family (unit, bool, every integer range, f64, String, char, Option, Vec,
+    fixed arrays, tuples, string-keyed maps, any nesting): in any reachable context over an input
+    that decodes to `d`, `Deserialize` on the boxed root (or any boxed sub-document) returns
+    exactly `deDoc ty` of that sub-document — success and failure alike -/
+theorem C09_typed_read_is_tree_read (b : Bytes) (d : Doc) (hd : Decodes b d) (hints : IntsOK d) (ty : Ty)
+    (c : Ctx) (rv : RVal) (dc : Doc) (hc : CInv c) (hb : c.input = b) (hbox : Boxed c d rv dc) :
+    (deTy c ty rv).2 = deDoc ty dc := by
+  obtain ⟨c', h, _⟩ := deTy_doc hd hints ty c rv dc hc hb hbox
+  rw [h]
+
+/-- **C09 at byte level (partial: `nullFree`)**: serialise a value of the write-side family
+    through the write calls into a fresh output document, finalise, hand the bytes to a fresh
+    invocation as its input, fetch the root and deserialise through the read calls of the lazy
+    reader: the value comes back. Composes C02 (the bytes decode to the value's tree), C01 (lazy
+    reads are reads of the decoded tree) and the document-level round trip. -/
+theorem C09_bytes_roundtrip_partial (t : Ty) (v : TVal) (ht : hasTy t v = true) (hn : nullFree t = true)
+    (hw : wfV v = true) (c0 : Ctx) :
+    let bytes := (runAOps {} v.ser).1.out
+    let c := (c0.reinit bytes).inputGet
+    (deTy c.1 t c.2).2 = some v := by
+  intro bytes c
+  have hC02 := SfVerif.Props.C02.C02_completed_output_is_the_tree v hw
+  have hdec : Decodes bytes v.doc := ⟨hC02.2.2.2.2, keysStr_doc v⟩
+  have hints : IntsOK v.doc := intsOK_of_intsB (intsB_doc v hw)
+  have hc0 : CInv (c0.reinit bytes) := by intro k r hk; simp [Ctx.reinit, Ctx.fresh] at hk
+  obtain ⟨h1, h2, h3, _, _, _, h7⟩ := inputGet_ok hc0
+  have hroot : c.2 = v.doc.box ⟨0, []⟩ := by
+    show (Ctx.inputGet (c0.reinit bytes)).2 = _
+    rw [h1]
+    exact valueAt_doc hdec (path := []) rfl 0
+  have hbox : Boxed c.1 v.doc c.2 v.doc :=
+    ⟨⟨0, []⟩, hroot, rfl, fun hr => by
+      have := h7
+      rw [show (Ctx.inputGet (c0.reinit bytes)).2 = v.doc.box ⟨0, []⟩ from hroot] at this
+      exact handleOK_ref hr this⟩
+  rw [C09_typed_read_is_tree_read bytes v.doc hdec hints t c.1 c.2 v.doc h2 h3 hbox]
+  exact C09_roundtrip_partial t v ht hn
 
 /-- non-vacuity: `Vec<Option<HashMap<String, Vec<i32>>>>` is in the family and a value of it type-checks -/
 example : nullFree (.vec (.opt (.map (.vec i32Ty)))) = true ∧
